@@ -163,7 +163,13 @@ def resolve_local_links(
 
             # Change serving number to match current page, if it's path starts
             # with "/serves", except for unscaled recipes
-            if from_path.startswith("/serves") and is_scalable:
+            # (NB: pages directly in the site root, i.e. the home page, exist
+            # only once and not below any "/serves<N>" directory.)
+            if (
+                from_path.startswith("/serves")
+                and is_scalable
+                and website_path.count("/") > 1
+            ):
                 website_path = "/".join(
                     from_path.split("/")[:2] + website_path.split("/")[2:]
                 )
